@@ -17,8 +17,12 @@ import BctVerif.Lemmas.MeasuresWalks
 
 `permA σ A` is the renumbered matrix `A[np.ix_(σ,σ)]` (`(permA σ A).get i j = A.get (σ i) (σ j)`),
 `permVec σ v` the renumbered per-node vector `v[σ]`.  Every theorem is for **every** `n`, every permutation
-`σ : Equiv.Perm (Fin n)` and every matrix of the stated entry type, and is about an *executable model that a driver of
-this framework runs against the real bct function* (the model of the slice that owns the routine):
+`σ : Equiv.Perm (Fin n)` and every matrix of the stated entry type.  All but two are about an *executable model that a
+driver of this framework runs against the real bct function* (the model of the slice that owns the routine); the two
+exceptions transport a specification rather than an executed definition: `isDist_equivariant` (the predicate `IsDist`) and
+`eigenvector_equivariant` (the eigen-equation, written with the executed `Walks.mulVecQ`).  Betweenness models take
+natural-number connection lengths (`AMat Nat n`); `pagerank_equivariant` assumes that both runs of the model return
+(no totality theorem for `Walks.pagerank` exists).
 
 * §1 `Model/Measures.lean` (this slice): `strengths_und_sign`, `density_und/dir`, `matching_ind`, `edge_nei_overlap_bu/bd`,
   `gtom`, `flow_coef_bd`, `rich_club_bu/bd`, `assortativity_bin/wei`;
@@ -261,6 +265,10 @@ theorem get_components_rejects_equivariant (A : AMat Int n) (h : Comp.isSymm A =
 
 theorem participation_coef_equivariant (W : AMat Rat n) (c : Vector Int n) :
     Partition.partCoef (permA σ W) (permVec σ c) = permVec σ (Partition.partCoef W c) := partCoef_perm σ W c
+/-- `participation_coef(W, ci, degree='in')` (the routine and the driver transpose `W`) -/
+theorem participation_coef_in_equivariant (W : AMat Rat n) (c : Vector Int n) :
+    Partition.partCoef (AMat.transpose (permA σ W)) (permVec σ c) = permVec σ (Partition.partCoef (AMat.transpose W) c) :=
+  partCoef_in_perm σ W c
 theorem participation_coef_sign_equivariant (W : AMat Rat n) (c : Vector Int n) :
     Partition.partCoefSign (permA σ W) (permVec σ c) =
       (permVec σ (Partition.partCoefSign W c).1, permVec σ (Partition.partCoefSign W c).2) := partCoefSign_perm σ W c
